@@ -1,6 +1,7 @@
 package main
 
 import (
+	"verif/engines/abandon"
 	"verif/engines/chunk"
 	"verif/engines/fault"
 	"verif/engines/hostile"
@@ -94,5 +95,14 @@ func init() {
 			"real": {"gotype.Unfolder incl. symbolCache", "json/ubjson/cborl Parser"},
 			"stub": {"caller-side chunk buffers (simkit.Feed, scribbled)"}},
 		Assumptions: []string{"oracle: the same history on an unfolder without key cache", "eviction order itself is not asserted (not part of the property)"},
+	}
+	registry["C14"] = &propCfg{
+		Engine: abandon.Engine{}, EngineName: "abandon", Level: "exploration",
+		QuickRuns: 12000, ThoroughRuns: 1500000, QuickCapS: 60, ThoroughCapS: 900,
+		Rule: "one run = one (well-formed stream, target type) pair - the stream is the fold of a catalogue value of the same or another type, or a generated stream; the target any catalogue type incl. an unsupported one - abandoned after k events for EVERY k (24 sampled + complete if the stream has >40 events), with announced lengths of still-open containers inflated to {2^16,2^20,2^31-1,2^31,2^40,2^62,2^63-1} in half of the cases; then Reset, SetTarget and a compatible probe document; evaluations = (stream,target,k) triples; distinct by (target, delivered prefix, announcements, probe type); all are non-trivial (a crash point or a complete mismatching document)",
+		Components: map[string][]string{
+			"real": {"gotype.Unfolder (all generated and reflection based unfolder states, Reset, SetTarget)", "gotype.Fold (stream source)"},
+			"stub": {"the producer (events replayed by the simulator, by value or by reference)"}},
+		Assumptions: []string{"allocation bound 1 MiB + 4 KiB per delivered event, cheap counter confirmed by an exact stop-the-world measurement", "sentinel words before and after the target inside one allocation detect out-of-target writes", "worker address space limited to 24 GiB so that giant allocations are fatal and attributed"},
 	}
 }
